@@ -77,7 +77,9 @@ def parseDump (obs : String) : Dump :=
     disc := (get fs "disc").map nat!, lb := (get fs "lb").map (fun s => let n := parseNode s; (n.id, n.height)),
     ntf := (get fs "ntf").map parseNtfn,
     memAt := (get fs "ntf").map (fun x => match x.splitOn ":" with | [_, _, _, _, m] => nat! m | _ => 0),
-    pres := get1 fs "pres", pbest := nat! (get1 fs "pbest"), pbl := (get fs "pbl").map parseNode }
+    pres := get1 fs "pres", pbest := nat! (get1 fs "pbest"), pbl := (get fs "pbl").map parseNode,
+    pseen := nat! (get1 fs "pseen"),
+    pre := (get fs "pre").map (fun x => match x.splitOn ":" with | [v, h, i] => (v == "1", nat! h, nat! i) | _ => (false, 0, 0)) }
 
 def parseEv (ws : List String) : Option Ev :=
   match ws with
@@ -139,6 +141,39 @@ def runCase : CaseFn := fun c => Id.run do
         if let some txt := firstDiff (dumpOfState st {}) d then
           for pid in ["C01", "C02", "C19"] do out := out.push s!"DIFF {pid} case {c.num} line {ln}: init {txt}"
           diverged := true
+    else if ws.head? == some "lagreorg" then
+      -- a reorganisation + the new branch's filter headers handled with a slow sink, then a
+      -- backlog request: `lagreorg p [ids] stop n h`
+      let p := nat! (ws.getD 1 "0")
+      let (idsW, rest) := bracket (ws.drop 2)
+      let ids := idsW.map nat!
+      let (stop, n, h) := match rest with
+        | [a, b, e] => (nat! a, nat! b, nat! e)
+        | _ => (0, 0, 0)
+      for f in c02 cfg (.headers p ids) prev d do out := out.push (fail "C02" f)
+      if dumpGood cfg prev && dumpGood cfg d then
+        for f in c19TipCovers d do out := out.push (fail "C19" f)
+        for f in c19HandlerAhead d do out := out.push (fail "C19" f)
+        for f in c19LagProbe h d do out := out.push (fail "C19" f)
+      subs := []
+      if !diverged then
+        let (st1, o1) := step cfg st (.headers p ids)
+        let (st2, o2) := if n == 0 then (st1, ({} : Out)) else step cfg st1 (.cfWrite stop n true)
+        st := st2
+        let o : Out := { ntf := o1.ntf ++ o2.ntf, res := o2.res }
+        if let some txt := firstDiff (dumpOfState st o) d then
+          for pid in ["C01", "C02", "C19"] do out := out.push s!"DIFF {pid} case {c.num} line {ln}: {op}: {txt}"
+          diverged := true
+        else
+          -- rendezvous: every notification was taken before the handlers returned, so the
+          -- subscriber is served from the final state and nothing is delivered afterwards
+          let po := backlog st h
+          let mres := if po.res == .ok then "ok" else "err"
+          -- (how many notifications the sink had RECORDED at that moment is not compared: the last
+          -- one may still be in the sink's hands; the backlog itself is determined)
+          if mres != d.pres || (mres == "ok" && (po.best != d.pbest || po.bl != d.pbl)) then
+            out := out.push s!"DIFF C19 case {c.num} line {ln}: {op}: backlog after the handlers returned model={mres} {po.best} {repr po.bl} taken={o.ntf.length} impl={d.pres} {d.pbest} {repr d.pbl} taken={d.pseen}"
+            diverged := true
     else
       match parseEv ws with
       | none =>
@@ -150,6 +185,7 @@ def runCase : CaseFn := fun c => Id.run do
         if dumpGood cfg prev && dumpGood cfg d then
           for f in c19Event cfg.tbl ev prev d do out := out.push (fail "C19" f)
           for f in c19TipCovers d do out := out.push (fail "C19" f)
+          for f in c19HandlerAhead d do out := out.push (fail "C19" f)
           match ws with
           | ["cfwrite", _, _, _, k, h] => for f in c19Probe (nat! k) (nat! h) d do out := out.push (fail "C19" f)
           | _ => pure ()
